@@ -866,6 +866,12 @@ impl<'input> Lexer<'input> {
             StringToken::Error => {
                 return Some(Err(LexicalError::Generic(span)));
             }
+            // Lone carriage returns are forbidden (see `StringToken::Error`), but the greedy
+            // literal regex swallows them whenever the literal doesn't start with one. Line endings
+            // have been normalized at this point, so any remaining `\r` is a lone one.
+            StringToken::Literal(s) if s.contains('\r') => {
+                return Some(Err(LexicalError::Generic(span)));
+            }
             token => Token::Str(token),
         };
 
@@ -957,6 +963,10 @@ impl<'input> Lexer<'input> {
             }
             // Early report errors for now. This could change in the future
             MultiStringToken::Error => {
+                return Some(Err(LexicalError::Generic(span)));
+            }
+            // Same as for standard strings: the literal regex can swallow a lone carriage return.
+            MultiStringToken::Literal(s) if s.contains('\r') => {
                 return Some(Err(LexicalError::Generic(span)));
             }
             token => Token::MultiStr(token),
@@ -1086,13 +1096,8 @@ fn escape_ascii(code: &str) -> Option<char> {
     }
 }
 
-/// Normalize the line endings in `s` to only `\n` and, in debug mode, check
-/// for lone `\r` without an accompanying `\n`.
+/// Normalize the line endings in `s` to only `\n`. A lone `\r` without an accompanying `\n` is
+/// left untouched: the lexer reports it as an error when handling the literal.
 pub fn normalize_line_endings(s: impl AsRef<str>) -> String {
-    let normalized = s.as_ref().replace("\r\n", "\n");
-    debug_assert!(
-        normalized.find('\r').is_none(),
-        "The lexer throws an error when it finds a lone carriage return"
-    );
-    normalized
+    s.as_ref().replace("\r\n", "\n")
 }
